@@ -17,6 +17,32 @@ pub struct Case {
     pub target: usize,
 }
 
+thread_local! {
+    static EV: std::cell::RefCell<[u32; 8]> = const { std::cell::RefCell::new([0; 8]) };
+}
+
+/// Counts evaluations of macro argument `k` (a function argument is evaluated exactly once).
+pub fn ev<T>(k: usize, v: T) -> T {
+    EV.with(|e| e.borrow_mut()[k] += 1);
+    v
+}
+pub fn ev_reset() {
+    EV.with(|e| *e.borrow_mut() = [0; 8]);
+}
+pub fn ev_counts() -> [u32; 8] {
+    EV.with(|e| *e.borrow())
+}
+/// `Err` if one of the arguments listed in `used` was not evaluated exactly once.
+pub fn ev_verdict(used: &[usize], counts: [u32; 8]) -> std::result::Result<(), (String, String)> {
+    for &k in used {
+        if counts[k] != 1 {
+            let names = ["first argument (name or options)", "help", "label names / label maps", "buckets / second label map", "registry", "", "", ""];
+            return Err(("argument-not-evaluated-exactly-once".to_string(), format!("the {} expression was evaluated {} times by the macro (a function argument is evaluated once)", names[k], counts[k])));
+        }
+    }
+    Ok(())
+}
+
 pub struct Regs {
     pub plain: Registry,
     pub custom: Registry,
@@ -170,8 +196,9 @@ pub struct SiteResult {
 /// Judge one call: `got` is what the macro evaluated to, `again` what a second
 /// identical invocation evaluated to, `explicit` the unregistered metric built
 /// by the explicit constructor from the same arguments.
-pub fn judge(site: &'static str, c: &Case, regs: &Regs, got: std::result::Result<Box<dyn Probe>, String>, again: std::result::Result<Box<dyn Probe>, String>, explicit: Box<dyn Probe>, amount: u32) -> SiteResult {
+pub fn judge(site: &'static str, c: &Case, regs: &Regs, got: std::result::Result<Box<dyn Probe>, String>, again: std::result::Result<Box<dyn Probe>, String>, explicit: Box<dyn Probe>, amount: u32, evs: std::result::Result<(), (String, String)>) -> SiteResult {
     let v = (|| {
+        evs?;
         let p = match got {
             Ok(p) => p,
             Err(e) => return Err(("valid-call-refused".to_string(), format!("first invocation evaluated to Err({})", e))),
@@ -203,7 +230,15 @@ pub fn judge(site: &'static str, c: &Case, regs: &Regs, got: std::result::Result
         }
         match again {
             Ok(_) => Err(("refusal-not-reported".to_string(), "a second invocation with the same descriptor evaluated to Ok".to_string())),
-            Err(_) => Ok(format!("{}|{}|{:?}", p.kind(), gd.join(";"), gb)),
+            Err(_) => {
+                // the refused second call must not have disturbed the first registration
+                let name = if c.target == 2 { format!("pfx_{}", fq) } else { fq.clone() };
+                p.bump(amount + 1);
+                if !has_sample(regs.target(c.target), &name, if p.kind() == "gauge" { amount + 1 } else { 2 * amount + 1 }) {
+                    return Err(("refused-call-disturbed-the-registered-metric".to_string(), format!("after a refused second invocation the metric registered by the first one is no longer gathered (or no longer follows its handle) in registry #{}", c.target)));
+                }
+                Ok(format!("{}|{}|{:?}", p.kind(), gd.join(";"), gb))
+            }
         }
     })();
     // keep the registries small: take the metric out again (equal descriptors identify it)
